@@ -503,19 +503,32 @@ func sortNotices(ns []Notice) {
 	})
 }
 
-func (e *env) runCase(c *CaseIn) (o CaseOut) {
+// loaded: a case after its configuration was loaded (phase 1, one case after the other in job order: loading edits
+// capabilities maps, and whatever one load leaves behind for the next is then the same in every run)
+type loaded struct {
+	uc   config.Config
+	o    CaseOut
+	done bool // nothing to evaluate (the configuration did not load)
+}
+
+func (e *env) loadCase(c *CaseIn) (l loaded) {
 	defer func() {
 		if r := recover(); r != nil {
-			o.ConfigErr = fmt.Sprintf("panic: %v", r)
+			l.o.ConfigErr = fmt.Sprintf("panic: %v", r)
+			l.done = true
 		}
 	}()
+	l.uc, l.o, l.done = e.loadConfig(c)
+	return l
+}
+
+func (e *env) loadConfig(c *CaseIn) (uc config.Config, o CaseOut, done bool) {
 	pipe := Pipe{}
 	if c.Pipe != nil {
 		pipe = *c.Pipe
 	}
 	bs, err := json.Marshal(c.Target.yamlDocCfg(e, c.Disabled, pipe.Cfg, pipe.Custom))
 	must(err)
-	var uc config.Config
 	switch pipe.Cfg {
 	case "nil", "empty":
 		// no configuration file at all: the configured target is this version's capabilities
@@ -532,7 +545,7 @@ func (e *env) runCase(c *CaseIn) (o CaseOut) {
 	default:
 		if err := yaml.Unmarshal(bs, &uc); err != nil {
 			o.ConfigErr = err.Error()
-			return o
+			return uc, o, true
 		}
 	}
 	if uc.Capabilities != nil {
@@ -551,6 +564,25 @@ func (e *env) runCase(c *CaseIn) (o CaseOut) {
 		}
 		o.FutureKeywords = append([]string{}, uc.Capabilities.FutureKeywords...)
 		o.Features = append([]string{}, uc.Capabilities.Features...)
+	}
+	return uc, o, false
+}
+
+// runCase: phase 2, in parallel
+func (e *env) runCase(c *CaseIn, ld loaded) (o CaseOut) {
+	o = ld.o
+	if ld.done {
+		return o
+	}
+	defer func() {
+		if r := recover(); r != nil {
+			o.ConfigErr = fmt.Sprintf("panic: %v", r)
+		}
+	}()
+	uc := ld.uc
+	pipe := Pipe{}
+	if c.Pipe != nil {
+		pipe = *c.Pipe
 	}
 	// the reference: the configured target alone, no other option (rule bodies are evaluated under ITS merged configuration)
 	base := linter.NewLinter()
@@ -926,6 +958,10 @@ func main() {
 		}
 	}
 	results := make([]CaseOut, len(jobs))
+	loads := make([]loaded, len(jobs))
+	for i := range jobs {
+		loads[i] = e.loadCase(&jobs[i].in)
+	}
 	var wg sync.WaitGroup
 	ch := make(chan int, 256)
 	for w := 0; w < runtime.NumCPU(); w++ {
@@ -933,7 +969,7 @@ func main() {
 		go func() {
 			defer wg.Done()
 			for i := range ch {
-				results[i] = e.runCase(&jobs[i].in)
+				results[i] = e.runCase(&jobs[i].in, loads[i])
 			}
 		}()
 	}
